@@ -284,3 +284,19 @@ def build_objective(spec: Dict[str, Any]) -> Objective:
 
 BENCH_NAMES = ["ackley", "beale", "griewank", "quartic", "rastrigin", "rosenbrock", "sphere", "styblinski_tang"]
 BENCH_MIN_N = {"beale": 2, "rosenbrock": 2}
+
+
+class Scaled(Objective):
+    """s * base, computed exactly as the solver's wrapper does (value * s, gradient * s)."""
+
+    def __init__(self, base: Objective, s: float):
+        super().__init__(base.n)
+        self.base, self.s = base, float(s)
+        self.name = f"scaled({base.name})"
+        self.analytic = base.analytic
+
+    def f(self, x):
+        return self.base.f(x) * self.s
+
+    def g(self, x):
+        return self.base.g(x) * self.s
